@@ -2,7 +2,9 @@
    Only statements here; proofs are [exact <lemma of Net/Proofs2.v>]. *)
 From Coq Require Import List NArith ZArith Permutation.
 From SF Require Import Base.Str Net.Model Net.Util Net.Proofs Net.Proofs2.
-From SF Require Tags.Model Gather.Model Gather.Proofs Loop.Model Loop.Proofs Net.Contracts Net.ContractsComb Net.MixedModel Net.MixedProofs Net.MixedProofs2 Net.MixedInst Net.SGNet Net.Contracts2.
+From SF Require Tags.Model Gather.Model Gather.Proofs Loop.Model Loop.Proofs Net.Contracts Net.ContractsComb Net.MixedModel Net.MixedProofs Net.MixedProofs2 Net.MixedInst Net.SGNet Net.Contracts2 Net.MixedProofs5 Net.MixedComb Net.CombNet Net.CombNetCwl Net.CombNet2 Net.CombNetGen Net.CombNetCart.
+From SF Require Comb.Cart.
+From SF Require Comb.Model Comb.Flat Cwl.Network.
 Import ListNotations.
 Local Open Scope string_scope. Local Open Scope list_scope.
 
@@ -124,6 +126,143 @@ Theorem C05_gather_terminates_only_after_both : forall depth arr,
   (exists s2, In (Gather.Model.OnTerm Gather.Model.ElemP s2) arr).
 Proof. exact Net.Contracts2.gather_terminates_only_after_both. Qed.
 
+(* ---- the bridge from "any interleaving" to the [Permutation arr ...] hypotheses of the step models: a log whose
+   entries name ports < n is a permutation of its projections taken port after port *)
+Theorem C05_log_is_permutation_of_projections :
+  forall (T : Type) (n : nat) (l : Net.MixedModel.log T),
+    (forall a, In a l -> fst a < n) ->
+    Permutation l (flat_map (fun j => map (fun x => (j, x)) (Net.MixedModel.proj T j l)) (seq 0 n)).
+Proof. exact Net.MixedProofs5.log_perm. Qed.
+
+(* ---- hypothesis (c) of C05_mixed_bags_partial for the flat dot product, operationally.  Network: one
+   CombinatorStep with the flat dot product over the ports [items], as a log machine, fed by n closed histories
+   (column j = what port j delivers); shape hypothesis = C02's [wf] on the full arrival list (every port carries
+   each tag at most once, no two tags in the ancestor relation).  Then in EVERY reachable state (any interleaving
+   of arrivals) the combinator has raised nothing, and any two fully terminated executions have emitted equal
+   bags of combinations ([bag_eq]: up to the order of the list and of the entries inside a combination).
+   (the per-port form, which is hypothesis (c) literally, is C05_dot_product_ports_determinate below; the cartesian
+   product is C05_cartesian_ports_determinate) *)
+Theorem C05_dot_product_never_raises :
+  forall (items : list string) (cols : list (list Comb.Model.tok)),
+    length cols = length items -> Comb.Flat.wf items (Net.CombNet.cn_full items cols) ->
+    forall ch l,
+      Net.MixedModel.mexec Comb.Model.tok Net.MixedComb.cspec Net.MixedComb.cs_ins Net.MixedComb.cs_outs
+        Net.MixedComb.cs_done Net.MixedComb.cs_accept (Net.CombNet.cn_win cols) (Net.CombNet.cn_specs items)
+        (Net.MixedModel.minit Comb.Model.tok Net.MixedComb.cspec (Net.CombNet.cn_specs items)) ch = Some [l] ->
+      Comb.Flat.wf items (Net.MixedComb.arrivals items l) /\
+      snd (Net.MixedComb.crun (Net.CombNet.cn_spec items) l) = None.
+Proof. exact Net.CombNet.cn_never_raises. Qed.
+
+Theorem C05_dot_product_bag_determinate_partial :
+  forall (items : list string) (cols : list (list Comb.Model.tok)),
+    length cols = length items -> Comb.Flat.wf items (Net.CombNet.cn_full items cols) ->
+    forall ch1 ch2 l1 l2,
+      Net.MixedModel.mexec Comb.Model.tok Net.MixedComb.cspec Net.MixedComb.cs_ins Net.MixedComb.cs_outs
+        Net.MixedComb.cs_done Net.MixedComb.cs_accept (Net.CombNet.cn_win cols) (Net.CombNet.cn_specs items)
+        (Net.MixedModel.minit Comb.Model.tok Net.MixedComb.cspec (Net.CombNet.cn_specs items)) ch1 = Some [l1] ->
+      Net.MixedModel.mexec Comb.Model.tok Net.MixedComb.cspec Net.MixedComb.cs_ins Net.MixedComb.cs_outs
+        Net.MixedComb.cs_done Net.MixedComb.cs_accept (Net.CombNet.cn_win cols) (Net.CombNet.cn_specs items)
+        (Net.MixedModel.minit Comb.Model.tok Net.MixedComb.cspec (Net.CombNet.cn_specs items)) ch2 = Some [l2] ->
+      Net.MixedModel.all_done Comb.Model.tok Net.MixedComb.cspec Net.MixedComb.cs_done (Net.CombNet.cn_specs items) [l1] ->
+      Net.MixedModel.all_done Comb.Model.tok Net.MixedComb.cspec Net.MixedComb.cs_done (Net.CombNet.cn_specs items) [l2] ->
+      Comb.Flat.bag_eq (concat (fst (Net.MixedComb.crun (Net.CombNet.cn_spec items) l1)))
+                       (concat (fst (Net.MixedComb.crun (Net.CombNet.cn_spec items) l2))).
+Proof. exact Net.CombNet.cn_bag_determinate. Qed.
+
+(* hypothesis (c) of C05_mixed_bags_partial, LITERALLY, for the two combinators: in the network "one CombinatorStep fed
+   by n closed histories" any two fully terminated executions (any two interleavings of the arrivals) carry
+   permutation-equal histories on every output port of the combinator — same data tokens up to order, same final
+   termination token — and nothing was raised.  Flat dot product: shape hypothesis C02's [wf] (from the bag of
+   combinations to the ports: emitted combinations bind each port once, [schema_keys_nodup]).  Cartesian product of
+   depth d >= 1, ANY lengths: shape hypothesis C02's [wfc]. *)
+Theorem C05_dot_product_ports_determinate :
+  forall (items : list string) (cols : list (list Comb.Model.tok)),
+    length cols = length items -> items <> [] -> Comb.Flat.wf items (Net.CombNet.cn_full items cols) ->
+    forall ch1 ch2 l1 l2,
+      Net.MixedModel.mexec Comb.Model.tok Net.MixedComb.cspec Net.MixedComb.cs_ins Net.MixedComb.cs_outs
+        Net.MixedComb.cs_done Net.MixedComb.cs_accept (Net.CombNet.cn_win cols) (Net.CombNet.cn_specs items)
+        (Net.MixedModel.minit Comb.Model.tok Net.MixedComb.cspec (Net.CombNet.cn_specs items)) ch1 = Some [l1] ->
+      Net.MixedModel.mexec Comb.Model.tok Net.MixedComb.cspec Net.MixedComb.cs_ins Net.MixedComb.cs_outs
+        Net.MixedComb.cs_done Net.MixedComb.cs_accept (Net.CombNet.cn_win cols) (Net.CombNet.cn_specs items)
+        (Net.MixedModel.minit Comb.Model.tok Net.MixedComb.cspec (Net.CombNet.cn_specs items)) ch2 = Some [l2] ->
+      Net.MixedModel.all_done Comb.Model.tok Net.MixedComb.cspec Net.MixedComb.cs_done (Net.CombNet.cn_specs items) [l1] ->
+      Net.MixedModel.all_done Comb.Model.tok Net.MixedComb.cspec Net.MixedComb.cs_done (Net.CombNet.cn_specs items) [l2] ->
+      forall k, Permutation (nth k (Net.MixedComb.cs_outs (Net.CombNet.cn_spec items) l1) [])
+                            (nth k (Net.MixedComb.cs_outs (Net.CombNet.cn_spec items) l2) []).
+Proof. exact Net.CombNet2.cn_ports_determinate. Qed.
+
+Theorem C05_cartesian_ports_determinate :
+  forall (items : list string) (d : nat) (cols : list (list Comb.Model.tok)),
+    d <> 0 -> items <> [] -> length cols = length items ->
+    Comb.Cart.wfc items d (Net.CombNetGen.cn_full items cols) ->
+    forall ch1 ch2 l1 l2,
+      Net.MixedModel.mexec Comb.Model.tok Net.MixedComb.cspec Net.MixedComb.cs_ins Net.MixedComb.cs_outs
+        Net.MixedComb.cs_done Net.MixedComb.cs_accept (Net.CombNetGen.cn_win cols)
+        (Net.CombNetGen.cn_specs items (Comb.Cart.cc items d))
+        (Net.MixedModel.minit Comb.Model.tok Net.MixedComb.cspec (Net.CombNetGen.cn_specs items (Comb.Cart.cc items d))) ch1
+        = Some [l1] ->
+      Net.MixedModel.mexec Comb.Model.tok Net.MixedComb.cspec Net.MixedComb.cs_ins Net.MixedComb.cs_outs
+        Net.MixedComb.cs_done Net.MixedComb.cs_accept (Net.CombNetGen.cn_win cols)
+        (Net.CombNetGen.cn_specs items (Comb.Cart.cc items d))
+        (Net.MixedModel.minit Comb.Model.tok Net.MixedComb.cspec (Net.CombNetGen.cn_specs items (Comb.Cart.cc items d))) ch2
+        = Some [l2] ->
+      Net.MixedModel.all_done Comb.Model.tok Net.MixedComb.cspec Net.MixedComb.cs_done
+        (Net.CombNetGen.cn_specs items (Comb.Cart.cc items d)) [l1] ->
+      Net.MixedModel.all_done Comb.Model.tok Net.MixedComb.cspec Net.MixedComb.cs_done
+        (Net.CombNetGen.cn_specs items (Comb.Cart.cc items d)) [l2] ->
+      snd (Net.MixedComb.crun (Net.CombNetGen.cn_spec items (Comb.Cart.cc items d)) l1) = None /\
+      snd (Net.MixedComb.crun (Net.CombNetGen.cn_spec items (Comb.Cart.cc items d)) l2) = None /\
+      forall k, Permutation (nth k (Net.MixedComb.cs_outs (Net.CombNetGen.cn_spec items (Comb.Cart.cc items d)) l1) [])
+                            (nth k (Net.MixedComb.cs_outs (Net.CombNetGen.cn_spec items (Comb.Cart.cc items d)) l2) []).
+Proof. exact Net.CombNetCart.cart_ports_determinate. Qed.
+
+(* ---- n scattered arrays -> DotProductCombinator -> one job per combination -> GatherStep (C29's network,
+   Cwl/Network.v, imported).  The combinator stage is OPERATIONAL: a log machine in a network, any interleaving of the
+   arrivals of the n ports; for every fully terminated execution it raised nothing and the jobs run on its
+   combinations are, as a bag, exactly the specification's rows; and feeding the size token and those job outputs to
+   the gather in ANY legal arrival order gives the specification's list, then COMPLETED.
+   _partial: the job and gather stages are the denotational statement of C29 (any order of job completions, any
+   legal interleaving with the termination tokens), not machines of the same network: Comb.Model's (id, tag) tokens
+   and Gather.Model's tokens are still different types, the job [exec] is the map between them.  Dot product with
+   equal lengths only (rows_ok); the cartesian variant is not done. *)
+Theorem C05_scatter_comb_gather_outputs_partial :
+  forall (items : list string) (t : Tags.Model.tag) (jobp : list N -> string) (rows : list (list N))
+         (cols : list (list Comb.Model.tok)),
+    NoDup items -> items <> [] -> t <> [] -> length cols = length items ->
+    Cwl.Network.rows_ok items rows ->
+    Permutation (Net.CombNet.cn_full items cols) (Cwl.Network.srows items t 0 rows) ->
+    forall ch l l1 l2 p1 p2,
+      Net.MixedModel.mexec Comb.Model.tok Net.MixedComb.cspec Net.MixedComb.cs_ins Net.MixedComb.cs_outs
+        Net.MixedComb.cs_done Net.MixedComb.cs_accept (Net.CombNet.cn_win cols) (Net.CombNet.cn_specs items)
+        (Net.MixedModel.minit Comb.Model.tok Net.MixedComb.cspec (Net.CombNet.cn_specs items)) ch = Some [l] ->
+      Net.MixedModel.all_done Comb.Model.tok Net.MixedComb.cspec Net.MixedComb.cs_done (Net.CombNet.cn_specs items) [l] ->
+      let schemas := concat (fst (Net.MixedComb.crun (Net.CombNet.cn_spec items) l)) in
+      snd (Net.MixedComb.crun (Net.CombNet.cn_spec items) l) = None /\
+      Permutation (map (Cwl.Network.exec items jobp) schemas) (Cwl.Network.eres t jobp 0 rows) /\
+      (Permutation (l1 ++ l2)
+         (Gather.Model.OnSize (Tags.Model.render t) (N.of_nat (length rows)) ::
+          map Gather.Model.OnElem (map (Cwl.Network.exec items jobp) schemas)) ->
+       p1 <> p2 -> (forall a, In a l2 -> Gather.Model.port_of a <> p1) ->
+       let s := Gather.Model.gather_run 1
+                  (l1 ++ Gather.Model.OnTerm p1 Gather.Model.Completed :: l2 ++ [Gather.Model.OnTerm p2 Gather.Model.Completed]) in
+       Gather.Model.gout (Gather.Model.gd s) =
+         [Gather.Model.ListTok (Tags.Model.render t) (Cwl.Network.eres t jobp 0 rows)] /\
+       Gather.Model.gfinal s = Some Gather.Model.Completed).
+Proof. exact Net.CombNetCwl.stage_outputs. Qed.
+
+(* the hypotheses are met: two arrays of two elements, ports a and b *)
+Example C05_stage_hypotheses_satisfiable :
+  let items := ["a"; "b"] in
+  let cols : list (list Comb.Model.tok) := [[(1%N, "0.0"); (2%N, "0.1")]; [(3%N, "0.0"); (4%N, "0.1")]] in
+  let rows := [[1%N; 3%N]; [2%N; 4%N]] in
+  NoDup items /\ length cols = length items /\ Cwl.Network.rows_ok items rows /\
+  Permutation (Net.CombNet.cn_full items cols) (Cwl.Network.srows items [0%N] 0 rows).
+Proof.
+  simpl. split; [repeat constructor; simpl; intuition discriminate|]. split; [reflexivity|]. split.
+  - intros r [<-|[<-|[]]]; reflexivity.
+  - vm_compute. apply perm_skip. apply perm_swap.
+Qed.
+
 (* ---- order-insensitivity of the merge-style steps, from their own proved models (each in its model's token
    type).  These are the instances of the hypothesis [insensitive] of C05_bags_determinate_partial that are
    theorems; what is still ASSUMED there: the embedding of these models' arrival lists into Net.Model histories,
@@ -189,3 +328,9 @@ Print Assumptions C05_contract_cartesian.
 Print Assumptions C05_mixed_bags_partial.
 Print Assumptions C05_scatter_gather_outputs.
 Print Assumptions C05_gather_terminates_only_after_both.
+Print Assumptions C05_log_is_permutation_of_projections.
+Print Assumptions C05_dot_product_never_raises.
+Print Assumptions C05_dot_product_bag_determinate_partial.
+Print Assumptions C05_scatter_comb_gather_outputs_partial.
+Print Assumptions C05_dot_product_ports_determinate.
+Print Assumptions C05_cartesian_ports_determinate.
